@@ -555,7 +555,9 @@ func (vc *FnVC) doReturn(st *State, r *ssa.Return) {
 			vc.contractError("ensures %q: %v", e.Text, err)
 			continue
 		}
-		vc.oblige(st, "post", clauseLabel2(e, i), t, "postcondition: "+e.Text)
+		if o := vc.oblige(st, "post", clauseLabel2(e, i), t, "postcondition: "+e.Text); o != nil {
+			o.Rets = rs
+		}
 	}
 	if vc.unit.HasMod && !vc.unit.ModInferred {
 		vc.frameCheck(st)
